@@ -26,9 +26,9 @@
     broadcast use axiom_short_key_model;
     broadcast use vstd::std_specs::hash::group_hash_axioms;
 @@ Service::remove_instance spec
-    requires old(self).wf()
+    requires old(self).wf()   // @C11
     ensures final(self).wf(),   // @C11
-        match r {
+        match r {   // @C11 @C12
             Some(old_i) => old(self).instances@.contains_key(*instance_key)
                 && old_i == old(self).instances@[*instance_key]
                 && final(self).instances@ == old(self).instances@.remove(*instance_key),
@@ -42,7 +42,7 @@
         (old(self).instances@.contains_key(*instance_key) && !(client_id is Some   // @C12
             && old(self).instances@[*instance_key].ephemeral && client_id.unwrap()@.len() > 0
             && old(self).instances@[*instance_key].client_id@ != client_id.unwrap()@)) ==> r is Some,
-        final(self).healthy_timeout_set == old(self).healthy_timeout_set, final(self).unhealthy_timeout_set == old(self).unhealthy_timeout_set,
+        final(self).healthy_timeout_set == old(self).healthy_timeout_set, final(self).unhealthy_timeout_set == old(self).unhealthy_timeout_set,   // @C13
 @@ Service::remove_instance entry
     broadcast use axiom_short_key_model;
     broadcast use vstd::std_specs::hash::group_hash_axioms;
@@ -56,22 +56,22 @@
     requires old(self).wf(), healthy_time >= 0, offline_time >= 0
     ensures final(self).wf(),   // @C11
         // C13: persistent, gRPC-connected and cluster-owned instances are never touched by the heartbeat clock
-        forall|k: InstanceShortKey| #[trigger] old(self).instances@.contains_key(k) && !timeout_enabled(*old(self).instances@[k])
+        forall|k: InstanceShortKey| #[trigger] old(self).instances@.contains_key(k) && !timeout_enabled(*old(self).instances@[k])   // @C13
             ==> final(self).instances@.contains_key(k) && final(self).instances@[k] == old(self).instances@[k],
         // C13: an instance whose heartbeat is newer than the thresholds is neither removed nor marked unhealthy
-        forall|k: InstanceShortKey| #[trigger] old(self).instances@.contains_key(k) && old(self).instances@[k].last_modified_millis > offline_time
+        forall|k: InstanceShortKey| #[trigger] old(self).instances@.contains_key(k) && old(self).instances@[k].last_modified_millis > offline_time   // @C13
             ==> final(self).instances@.contains_key(k),
-        forall|k: InstanceShortKey| #[trigger] old(self).instances@.contains_key(k) && old(self).instances@[k].last_modified_millis > offline_time
+        forall|k: InstanceShortKey| #[trigger] old(self).instances@.contains_key(k) && old(self).instances@[k].last_modified_millis > offline_time   // @C13
             && old(self).instances@[k].last_modified_millis > healthy_time ==> final(self).instances@[k] == old(self).instances@[k],
         // nothing is invented; survivors keep everything but possibly the health bit
-        forall|k: InstanceShortKey| #[trigger] final(self).instances@.contains_key(k) ==> old(self).instances@.contains_key(k)
+        forall|k: InstanceShortKey| #[trigger] final(self).instances@.contains_key(k) ==> old(self).instances@.contains_key(k)   // @C12 @C13
             && (final(self).instances@[k] == old(self).instances@[k]
                 || (old(self).instances@[k].healthy && *final(self).instances@[k] == (Instance { healthy: false, ..*old(self).instances@[k] }))),
         // C13 (under A-TS): a silent instance whose removal entry is due is removed; one whose health entry is due is marked unhealthy
-        forall|k: InstanceShortKey| #[trigger] old(self).unhealthy_timeout_set.due(offline_time as u64, k) && old(self).instances@.contains_key(k)
+        forall|k: InstanceShortKey| #[trigger] old(self).unhealthy_timeout_set.due(offline_time as u64, k) && old(self).instances@.contains_key(k)   // @C13
             && timeout_enabled(*old(self).instances@[k]) && old(self).instances@[k].last_modified_millis <= offline_time
             ==> !final(self).instances@.contains_key(k),
-        forall|k: InstanceShortKey| #[trigger] old(self).healthy_timeout_set.due(healthy_time as u64, k) && final(self).instances@.contains_key(k)
+        forall|k: InstanceShortKey| #[trigger] old(self).healthy_timeout_set.due(healthy_time as u64, k) && final(self).instances@.contains_key(k)   // @C13
             && timeout_enabled(*old(self).instances@[k]) && old(self).instances@[k].last_modified_millis <= healthy_time
             ==> !final(self).instances@[k].healthy,
 @@ Service::time_check entry
@@ -83,10 +83,11 @@
     let ghost ts2 = self.healthy_timeout_set;
 @@ Service::time_check loop 1
     invariant vx_it_1.obeys_prophetic_iter_laws(), vx_it_1.decrease() is Some,
-        self.wf(), offline_time >= 0, healthy_time >= 0,
-        self.healthy_timeout_set == ts2,
-        tc_keep1(m0, self.instances@, offline_time),
-        forall|v: InstanceShortKey| #[trigger] ts1.due(offline_time as u64, v) && m0.contains_key(v) && timeout_enabled(*m0[v])
+        self.wf(),   // @C11
+        offline_time >= 0, healthy_time >= 0,
+        self.healthy_timeout_set == ts2,   // @C13
+        tc_keep1(m0, self.instances@, offline_time),   // @C13
+        forall|v: InstanceShortKey| #[trigger] ts1.due(offline_time as u64, v) && m0.contains_key(v) && timeout_enabled(*m0[v])   // @C13
             && m0[v].last_modified_millis <= offline_time ==> vx_it_1.remaining().contains(v) || !self.instances@.contains_key(v),
     ensures vx_it_1.remaining().len() == 0
     decreases vx_it_1.decrease()->0
@@ -99,12 +100,13 @@
     let ghost m1 = self.instances@;
 @@ Service::time_check loop 2
     invariant vx_it_2.obeys_prophetic_iter_laws(), vx_it_2.decrease() is Some,
-        self.wf(), offline_time >= 0, healthy_time >= 0,
-        tc_keep1(m0, m1, offline_time),
-        forall|v: InstanceShortKey| #[trigger] ts1.due(offline_time as u64, v) && m0.contains_key(v) && timeout_enabled(*m0[v])
+        self.wf(),   // @C11
+        offline_time >= 0, healthy_time >= 0,
+        tc_keep1(m0, m1, offline_time),   // @C13
+        forall|v: InstanceShortKey| #[trigger] ts1.due(offline_time as u64, v) && m0.contains_key(v) && timeout_enabled(*m0[v])   // @C13
             && m0[v].last_modified_millis <= offline_time ==> !m1.contains_key(v),
-        tc_keep2(m1, self.instances@, healthy_time),
-        forall|v: InstanceShortKey| #[trigger] ts2.due(healthy_time as u64, v) && m1.contains_key(v) && timeout_enabled(*m1[v])
+        tc_keep2(m1, self.instances@, healthy_time),   // @C13
+        forall|v: InstanceShortKey| #[trigger] ts2.due(healthy_time as u64, v) && m1.contains_key(v) && timeout_enabled(*m1[v])   // @C13
             && m1[v].last_modified_millis <= healthy_time ==> vx_it_2.remaining().contains(v) || !self.instances@[v].healthy,
     ensures vx_it_2.remaining().len() == 0
     decreases vx_it_2.decrease()->0
@@ -117,8 +119,8 @@
     requires old(self).wf(), old(self).instances@.dom().len() < 0x7fff_ffff
     ensures final(self).wf(),   // @C11
         // exactly the key of the incoming address is (re)bound, every other entry is unchanged
-        final(self).instances@.dom() == old(self).instances@.dom().insert(key_of(instance)),
-        forall|k: InstanceShortKey| k != key_of(instance) && old(self).instances@.contains_key(k)
+        final(self).instances@.dom() == old(self).instances@.dom().insert(key_of(instance)),   // @C11 @C12
+        forall|k: InstanceShortKey| k != key_of(instance) && old(self).instances@.contains_key(k)   // @C11 @C12
             ==> final(self).instances@[k] == old(self).instances@[k],
         // C12: a newly registered instance carries the address, flags, weight and owner it was registered with
         !old(self).instances@.contains_key(key_of(instance)) ==> ({   // @C12
@@ -135,11 +137,11 @@
             let o = old(self).instances@[key_of(instance)];
             f.from_grpc && f.client_id == o.client_id && f.from_cluster == o.from_cluster
         }),
-        final(self).instances@[key_of(instance)].last_modified_millis == instance.last_modified_millis,
+        final(self).instances@[key_of(instance)].last_modified_millis == instance.last_modified_millis,   // @C13
         // C13: a heart-beating HTTP instance is (re)armed on the health clock at its heartbeat time
         (timeout_enabled(*final(self).instances@[key_of(instance)]) && !from_sync) ==>   // @C13
             final(self).healthy_timeout_set.armed(instance.last_modified_millis as u64, key_of(instance)),
-        final(self).unhealthy_timeout_set == old(self).unhealthy_timeout_set,
+        final(self).unhealthy_timeout_set == old(self).unhealthy_timeout_set,   // @C13
 @@ Service::update_instance entry
     broadcast use axiom_short_key_model;
     broadcast use vstd::std_specs::hash::group_hash_axioms;
@@ -151,10 +153,10 @@
     proof {
         lemma_insert_counts(old_m, gk, self.instances@[gk]);
         assert(self.instances@ =~= old_m.insert(gk, self.instances@[gk]));
-        assert(self.perpetual_host_set@ =~= perpetual_keys(self.instances@));
+        assert(self.perpetual_host_set@ =~= perpetual_keys(self.instances@));   // @C11
     }
 @@ Service::update_instance_healthy_invalid spec
-    requires old(self).wf()
+    requires old(self).wf()   // @C11
     ensures final(self).wf(),   // @C11
         final(self).instances@.dom() == old(self).instances@.dom(),
         forall|k: InstanceShortKey| k != *instance_id && old(self).instances@.contains_key(k) ==> final(self).instances@[k] == old(self).instances@[k],
@@ -187,7 +189,7 @@
             lemma_insert_counts(old_m.remove(gk), gk, self.instances@[gk]);
             assert(self.instances@ =~= old_m.remove(gk).insert(gk, self.instances@[gk]));
             assert(self.instances@.dom() =~= old_m.dom());
-            assert(perpetual_keys(self.instances@) =~= perpetual_keys(old_m));
+            assert(perpetual_keys(self.instances@) =~= perpetual_keys(old_m));   // @C11
         } else {
             assert(self.instances@ =~= old_m);
         }
@@ -201,7 +203,7 @@
             *final(self).instances@[*instance_id] == (Instance { healthy: true, ..*old(self).instances@[*instance_id] }),
         !(old(self).instances@.contains_key(*instance_id) && !old(self).instances@[*instance_id].healthy && !old(self).instances@[*instance_id].ephemeral) ==>
             final(self).instances@ == old(self).instances@,
-        final(self).healthy_timeout_set == old(self).healthy_timeout_set, final(self).unhealthy_timeout_set == old(self).unhealthy_timeout_set,
+        final(self).healthy_timeout_set == old(self).healthy_timeout_set, final(self).unhealthy_timeout_set == old(self).unhealthy_timeout_set,   // @C13
 @@ Service::update_perpetual_instance_healthy_valid entry
     broadcast use axiom_short_key_model;
     broadcast use vstd::std_specs::hash::group_hash_axioms;
@@ -223,7 +225,7 @@
             lemma_insert_counts(old_m.remove(gk), gk, self.instances@[gk]);
             assert(self.instances@ =~= old_m.remove(gk).insert(gk, self.instances@[gk]));
             assert(self.instances@.dom() =~= old_m.dom());
-            assert(perpetual_keys(self.instances@) =~= perpetual_keys(old_m));
+            assert(perpetual_keys(self.instances@) =~= perpetual_keys(old_m));   // @C11
         } else {
             assert(self.instances@ =~= old_m);
         }
